@@ -1981,6 +1981,13 @@ class CodeGenerator(NodeVisitor):
             extra_kwargs.update(loop_kwargs, **block_kwargs)
         elif loop_kwargs or block_kwargs:
             extra_kwargs = dict(loop_kwargs, **block_kwargs)
+        if extra_kwargs:
+            for kwarg in node.kwargs:
+                if kwarg.key in extra_kwargs:
+                    self.fail(
+                        f"the keyword argument {kwarg.key!r} is reserved here",
+                        kwarg.lineno,
+                    )
         self.signature(node, frame, extra_kwargs)
         self.write(")")
         if self.environment.is_async:
